@@ -6,6 +6,15 @@
   (`*` where nothing is demanded). In model mode keys of a (namespace,type) group that
   mixes a destroy-ready input with other inputs are `*` as well: there the real
   adapter's behaviour depends on the Go scheduler (D5); spec mode demands them.
+
+  `stall t p in` / `unstall t`: a stall window — a registration (R probe) that the harness holds
+  inside RegisterController while the `w` ops of the same tick are issued, so the delivery
+  goroutine is parked between lookup and trigger (the window of Cosi.Model.Handoff). For the
+  property the stalled probe is an ordinary registration: what is demanded at the next
+  `quiesce` is the same formula (Cosi.C05H.quiescent_means_current holds for every schedule,
+  parked deliveries and registrations in between included). The window stays open across `w`
+  ops of the same tick only; any other op closes it first; a `stall` inside an open window is
+  ignored; `unstall` without a window prints `ok`.
 -/
 import Cosi.Model.Wrap
 import Cosi.Gen.Pipeline
@@ -33,6 +42,7 @@ structure St where
   hs : HSys := {}
   probes : List Probe := []
   started : Bool := false
+  stall : Option String := none   -- tick of the open stall window
   types : List String := ["T1", "T2", "T3"]
   ids : List String := ["a", "b", "c"]
 
@@ -92,8 +102,17 @@ def quiesceLine (st : St) : String :=
       (expected st p t i).map fun v => s!"{t}/{i}={v}"
     s!"p{p.pid}: {" ".intercalate items} ;")
 
-def stepLine (st : St) (op : String) (a : List (String × String)) : St × String :=
+def stepLine (st0 : St) (op : String) (a : List (String × String)) : St × String :=
+  -- a stall window stays open only across `w` ops of its own tick (and ignored `stall` ops)
+  let keep := op == "stall" || op == "unstall" || (op == "w" && st0.stall == some (arg a "t"))
+  let st := if keep then st0 else { st0 with stall := none }
   match op with
+  | "stall" =>
+    if st.stall.isSome then (st, "ok") else
+    let p : Probe := { pid := argNat a "p", flavour := "r", decls := parseDecls (arg a "in") }
+    let p := if st.started then goLive st p else p
+    ({ st with probes := st.probes.filter (·.pid != argNat a "p") ++ [p], stall := some (arg a "t") }, "ok")
+  | "unstall" => ({ st with stall := none }, "ok")
   | "reg" =>
     let p : Probe := { pid := argNat a "p", flavour := arg a "fl", decls := parseDecls (arg a "in") }
     let p := if st.started then goLive st p else p
